@@ -20,6 +20,7 @@
 #include <sys/epoll.h>
 #include <unistd.h>
 
+#include <climits>
 #include <cstdint>
 #include <cstring>
 
@@ -70,7 +71,13 @@ void EpollLoop::runLoop(Mode mode)
 
     keep_running_ = (mode == Loop::Mode::kForever);
     do {
-        int fds = epoll_wait(epoll_fd_, events.data(), events.size(), getWaitTime());
+        //! epoll_wait() takes an int: a wait of 2^31 ms or more must not be truncated
+        //! (negative means wait for ever, zero means busy polling); wake at INT_MAX and wait again
+        int64_t wait_ms = getWaitTime();
+        if (wait_ms > INT_MAX)
+            wait_ms = INT_MAX;
+
+        int fds = epoll_wait(epoll_fd_, events.data(), events.size(), static_cast<int>(wait_ms));
         wait_serial_ = fd_data_serial_;
 
         RECORD_SCOPE();
